@@ -19,6 +19,8 @@ Atts == {<<"D", Lf("u1")>>, <<"D", Lf("u1"), Lf("s")>>, <<"D", Lf("s"), Lf("u2")
 AliasTrees == {<<"V", d, d>> : d \in Atts} \cup {<<"V", <<"D", d, <<"L", d>>>>, Lf("absent")>> : d \in Atts}
               \cup {<<"V", <<"L", d, d>>, Lf("u1")>> : d \in Atts}
 NoDev == {}
+NamedOnly == {"named"}
+AllOpNames == OpNameModes
 InPlace == {"in_place_nulling"}
 NoReuse == {FALSE}
 Bools == {TRUE, FALSE}
